@@ -90,8 +90,14 @@ class Obligation:
                 rel |= k
         return [h for h, k in info if not k or (k & (rel - base)) or k <= base]
 
-    def smt2(self, logic=None, filtered=False):
+    def smt2(self, logic=None, filtered=False, tail=None):
         s = z3.Solver()
+        if tail is not None:
+            # the most recent hypotheses only (sound weakening: a subset of the hypotheses)
+            for h in list(getattr(self, 'axioms', [])) + self.hyps[-tail:]:
+                s.add(h)
+            s.add(z3.Not(self.goal))
+            return s.to_smt2()
         if filtered:
             for h in self.relevant_hyps():
                 s.add(h)
